@@ -407,16 +407,6 @@ end D
 /-! ### C++ (no async support) -/
 namespace Cpp
 
-def hexdigit (v : Nat) : Char := if v < 10 then Char.ofNat (48 + v) else Char.ofNat (65 - 10 + v)
-
-/-- symbol_name.rs `make_external_component`, per character -/
-def mecChar (c : Char) : List Char :=
-  if c.isAlphanum || c == '_' then [c]
-  else if c == '-' then ['_']
-  else ['X', hexdigit ((c.toNat &&& 0xf0) >>> 4), hexdigit (c.toNat &&& 0xf)]
-
-def makeExternalComponent (s : String) : String := String.ofList (s.toList.flatMap mecChar)
-
 /-- the generator's `wasm_import_module: Option<String>`: `Some(name_world_key)` for interfaces,
 `Some("$root")` for world-level imports, `None` for world-level exports -/
 def importModule (k : Key) : String := rootOr k
@@ -434,11 +424,13 @@ def mainExport (k : Key) (f : Fn) : Exp :=
   ⟨modulePrefix ++ f.name, norm sig.params, norm sig.results⟩
 
 /-- `cabi_post_{export_name}` with
-`export_name = match module_name { Some(m) => "{m}#{name}", None => make_external_component(name) }` -/
+`export_name = match module_name { Some(m) => "{m}#{name}", None => func.name.clone() }`
+(since /repo 1abddb0; before, `None => make_external_component(name)`: finding
+`cpp-world-post-return-mangled`) -/
 def postReturnExport (k : Key) (f : Fn) : Exp :=
   let exportName := match k.worldKey with
     | some m => m ++ "#" ++ f.name
-    | none => makeExternalComponent f.name
+    | none => f.name
   ⟨"cabi_post_" ++ exportName, norm (wasmSignature .guestExport f.sig).results, []⟩
 
 def exportFn (k : Key) (f : Fn) : List Exp :=
@@ -578,8 +570,9 @@ def mainExport (k : Key) (f : Fn) : Exp :=
 
 def callbackExport (k : Key) (f : Fn) : Exp := ⟨"[callback]" ++ exportName k f, i3, [.i32]⟩
 
-/-- `if abi::guest_export_needs_post_return(..)` — NOT `else if`: also for async exports, where
-`export_name` already carries `[async-lift]` -/
+/-- `if !async_ && abi::guest_export_needs_post_return(..)` (since /repo 1aeee96; before, the test
+was made for async exports too and produced `cabi_post_[async-lift]…`: finding
+`csharp-async-post-return-ignored`) -/
 def postReturnExport (k : Key) (f : Fn) : Exp :=
   ⟨"cabi_post_" ++ exportName k f,
    norm (wasmSignature (if f.sel then .guestExportAsync else .guestExport) f.sig).results, []⟩
@@ -587,7 +580,7 @@ def postReturnExport (k : Key) (f : Fn) : Exp :=
 def exportFn (k : Key) (f : Fn) : List Exp :=
   mainExport k f ::
     ((if f.sel then [callbackExport k f] else []) ++
-     (if needsPostReturn f.sig then [postReturnExport k f] else []))
+     (if !f.sel && needsPostReturn f.sig then [postReturnExport k f] else []))
 
 def taskReturn (k : Key) (f : Fn) : Imp :=
   ⟨"[export]" ++ rootOr k, "[task-return]" ++ f.name, norm (coreTaskReturnParams f), []⟩
